@@ -137,6 +137,7 @@ def dump(repo: str) -> dict:
         "requestTimeoutMs": int(
             Fraction(default(PhysicalDevice.request, "timeout")) * 1000
         ),
+        "consumersCountDefault": default(__import__("pyplumio.protocol", fromlist=["AsyncProtocol"]).AsyncProtocol.__init__, "consumers_count"),
     }
     P, I = const.ProductType.ECOMAX_P, const.ProductType.ECOMAX_I
     out["tables"] = {
